@@ -9,6 +9,8 @@ import (
 	"fmt"
 	"io/ioutil"
 	"strings"
+	"sync"
+	"time"
 
 	"github.com/knz/shakespeare/pkg/cmd"
 	"github.com/knz/shakespeare/verifharness/vh"
@@ -308,6 +310,74 @@ func runSignalActivated(modality string, tr []bool) periodCase {
 	return pc
 }
 
+// runSometimesFailing: `al audits throughout`, predicate `[x s] > 3`, and samples
+// that are sometimes not numbers (tr element 2): the comparison then fails to
+// evaluate; the round is reported as an error and is not an observation.
+func runSometimesFailing(modality string, tr []int) period3Case {
+	cfg := roleText + "audience\n  al audits throughout\n  al expects " + modality + ": [x s] > 3\nend\n"
+	var evs []cmd.VerifEvent
+	ts := 0.0
+	for _, b := range tr {
+		ts += 0.5
+		v := cmd.VerifValue{Actor: "x", Sig: "s", IsNum: true, Num: 1}
+		switch b {
+		case 1:
+			v.Num = 5
+		case 2:
+			v = cmd.VerifValue{Actor: "x", Sig: "s", IsNum: false, Str: "oops"}
+		}
+		evs = append(evs, cmd.VerifEvent{Kind: "sig", Ts: ts, Values: []cmd.VerifValue{v}})
+	}
+	evs = append(evs, cmd.VerifEvent{Kind: "final", Ts: ts + 1.2871})
+	res := cmd.VerifAuditLoop(cfg, evs, false)
+	return period3Case{Name: modality, Trace: tr, Codes: reportsOf(&res, "al"), Panic: problem(&res, false)}
+}
+
+// runSlowCollector: the same play against a collector that takes 160 ms per event
+// behind a channel of capacity 1 must deliver exactly the reports of the play
+// against a fast collector: the audit loop waits for the collector.
+type slowCase struct {
+	Name       string
+	Fast, Slow []string
+	Problem    string
+}
+
+func runSlowCollector(modality string) slowCase {
+	cfg := roleText + "audience\n"
+	for _, a := range []string{"a1", "a2"} {
+		cfg += "  " + a + " audits throughout\n  " + a + " expects " + modality + ": [x s] > 3\n"
+	}
+	cfg += "end\n"
+	var evs []cmd.VerifEvent
+	ts := 0.0
+	for _, b := range []bool{true, false, true} {
+		ts += 0.5
+		evs = append(evs, sample(ts, b))
+	}
+	evs = append(evs, cmd.VerifEvent{Kind: "final", Ts: ts + 1.2871})
+	fast := cmd.VerifAuditLoop(cfg, evs, false)
+	c := slowCase{Name: modality, Problem: problem(&fast, false)}
+	for _, o := range fast.Outs {
+		if o.Kind == "report" {
+			c.Fast = append(c.Fast, fmt.Sprintf("%s:%d", o.Auditor, o.Result))
+		}
+	}
+	// slower than any patience the audit loop could reasonably have for a busy collector
+	slow, prob := cmd.VerifSlowCollector(cfg, evs, 1, 160*time.Millisecond)
+	c.Slow = slow
+	if prob != "" {
+		c.Problem = prob
+	}
+	return c
+}
+
+type period3Case struct {
+	Name  string
+	Trace []int // 0 false, 1 true, 2 the predicate does not evaluate
+	Codes []int
+	Panic string
+}
+
 func main() {
 	seed := flag.Int64("seed", 1, "")
 	tier := flag.String("tier", "quick", "")
@@ -473,6 +543,46 @@ func main() {
 		}
 	}
 
+	// predicates that fail to evaluate in some rounds: every trace over {f, t, error} up to length 4 with at least one error
+	var p3 []period3Case
+	for _, n := range names {
+		for l := 1; l <= 4; l++ {
+			tot := 1
+			for i := 0; i < l; i++ {
+				tot *= 3
+			}
+			for code := 0; code < tot; code++ {
+				tr := make([]int, l)
+				x, hasErr := code, false
+				for i := range tr {
+					tr[i] = x % 3
+					x /= 3
+					hasErr = hasErr || tr[i] == 2
+				}
+				if hasErr && (l <= 3 || rng.Intn(3) == 0) {
+					p3 = append(p3, runSometimesFailing(n, tr))
+				}
+			}
+		}
+	}
+
+	// a slow collector must not lose reports
+	var slows []slowCase
+	slowNames := []string{"always", "once"}
+	if *tier == "thorough" {
+		slowNames = names
+	}
+	slows = make([]slowCase, len(slowNames))
+	var swg sync.WaitGroup
+	for i, n := range slowNames {
+		swg.Add(1)
+		go func(i int, n string) {
+			defer swg.Done()
+			slows[i] = runSlowCollector(n)
+		}(i, n)
+	}
+	swg.Wait()
+
 	var sb strings.Builder
 	var items []string
 	for _, n := range names {
@@ -498,6 +608,15 @@ func main() {
 	}
 	sb.WriteString("Definition audition_period_cases : list period_case := " + vh.ListNL(items) + ".\n")
 	items = nil
+	for _, c := range p3 {
+		var bs []string
+		for _, b := range c.Trace {
+			bs = append(bs, []string{"(Some false)", "(Some true)", "None"}[b])
+		}
+		items = append(items, "("+coqStr(c.Name)+", "+vh.List(bs)+", "+codes(c.Codes, c.Panic)+")")
+	}
+	sb.WriteString("Definition period3_cases : list period3_case := " + vh.ListNL(items) + ".\n")
+	items = nil
 	for _, c := range raws {
 		var ls []string
 		for _, l := range c.Labels {
@@ -507,7 +626,7 @@ func main() {
 	}
 	sb.WriteString("Definition raw_cases : list raw_case := " + vh.ListNL(items) + ".\n")
 	vh.WriteFile(*out, "cases.v", sb.String())
-	vh.WriteJSON(*out, "cases.json", map[string]interface{}{"accepted": names, "period": periods, "raw": raws, "audition_period": audPeriods})
+	vh.WriteJSON(*out, "cases.json", map[string]interface{}{"accepted": names, "period": periods, "raw": raws, "audition_period": audPeriods, "period3": p3, "slow_collector": slows})
 	distinct := map[string]bool{}
 	nontriv := 0
 	dis := 0
